@@ -280,3 +280,24 @@ Theorem c01_notification_once_at_quiescence : forall c tr s oss k t, run (init_o
   (t_st t = TWaiting /\ sem_free s = 0 /\ enter_count k (init_of c) tr = 0).
 Proof. exact SrvC01b.c01_notification_once_at_quiescence. Qed.
 Print Assumptions c01_notification_once_at_quiescence.
+
+(* 11. "no stop so far" can be read off the final state: the run has no stop window iff stopLocked never ran on a
+       running server (closes = 0) *)
+Theorem c01_stop_free_iff_closes : forall c tr s oss, run (init_of c) tr = Some (s, oss) ->
+  (stop_free (init_of c) tr = true <-> closes s = 0).
+Proof. exact SrvHist.stop_free_iff_closes. Qed.
+Print Assumptions c01_stop_free_iff_closes.
+
+(* 12. at rest everything has been answered: at a quiescent point of a running server (Concurrency >= 1) at which
+       no handler is still executing, the work queue is empty, every dispatch unit has finished, each unit with
+       something to say was delivered exactly once and each silent one never *)
+Theorem c01_all_answered_at_rest : forall c tr s oss, run (init_of c) tr = Some (s, oss) ->
+  quiescent s = true -> running s = true -> 0 < cf_K c ->
+  (forall k t, nth_error (tasks s) k = Some t -> t_st t <> TRunning) ->
+  inq s = [] /\
+  forall u, u < length (units s) ->
+    ufin s u = true /\
+    (responses (unit_tasks s u) <> [] -> countb (is_deliver u) tr = 1) /\
+    (responses (unit_tasks s u) = [] -> countb (is_deliver u) tr = 0).
+Proof. exact SrvC01b.c01_all_answered_at_rest. Qed.
+Print Assumptions c01_all_answered_at_rest.
